@@ -3,6 +3,7 @@
 -/
 import Stevia.Proofs.ArraySetState
 import Stevia.Proofs.ExecInv
+import Stevia.Proofs.GenASetRefine
 
 namespace Stevia.C03
 open Stevia
@@ -51,5 +52,36 @@ theorem update_visible {key : α → κ} {P : Nat} {s : ASet α} (h : s.Inv key 
   rcases ASet.update_spec h k y' with ⟨h1, _⟩ | ⟨_, s', h2, h3, _⟩
   · rw [h1] at hp; cases hp
   · exact ⟨s', h2, h3, ASet.update_same_key h k y' hk h2⟩
+
+/-! ### Tie through the translator
+
+`Stevia.GenA.*` is regenerated from `array_set.rs` on every run (tools/rust2lean.py): the binary-search loop, the
+bounds-checked accesses and the two `ptr::copy` shifts as the source has them. -/
+
+/-- The translated `index`, `get`, `contains`, `insert`, `take`, `remove` and `get_mut` + write are the model's
+    functions (a failing bounds check or an out-of-range copy is `none` / `Except.error`), for every set, every
+    element and every prefix maximum `P` — unconditionally. -/
+theorem translated_source_is_the_model (key : α → κ) (P : Nat) (m : ASet α) (x y : α) :
+    GenA.index key P m x = (ASet.index key m (key x)).toOption.map Idx.pair ∧
+    GenA.get key P m x = (ASet.get key m (key x)).toOption ∧
+    GenA.contains key P m x = (ASet.contains key m (key x)).toOption ∧
+    GenA.insert key P m x = (ASet.insert key P m x).toOption ∧
+    GenA.take key P m x = (ASet.take key m (key x)).toOption ∧
+    GenA.remove key P m x = ((ASet.take key m (key x)).toOption).map (fun r => (r.1, r.2.isSome)) ∧
+    (GenA.get_mut key P m x).map (fun r => match r.2 with
+      | some i => ({ m with vals := m.vals.set i y }, true)
+      | none => (m, false)) = (ASet.update key m (key x) y).toOption ∧
+    GenA.len key P m = m.len ∧ GenA.is_full key P m = m.isFull P ∧ GenA.is_empty key P m = m.isEmpty :=
+  ⟨GenA.index_eq key P m x, GenA.get_eq key P m x, GenA.contains_eq key P m x, GenA.insert_eq key P m x,
+   GenA.take_eq key P m x, GenA.remove_eq key P m x, GenA.get_mut_eq key P m x y, rfl, GenA.is_full_eq key P m,
+   GenA.is_empty_eq key P m⟩
+
+/-- On every well-formed set the translated `insert` / `take` return normally with the model's state and answer
+    (hence, by `refines_from`, the reference sorted set's), and lookups return the stored member. -/
+theorem translated_source_refines {key : α → κ} {P : Nat} {s : ASet α} (h : s.Inv key P) (x : α) :
+    (∃ s' r, GenA.insert key P s x = some (s', r) ∧ s.insert key P x = .ok (s', r) ∧ s'.Inv key P) ∧
+    (∃ s' r, GenA.take key P s x = some (s', r) ∧ s.take key (key x) = .ok (s', r) ∧ s'.Inv key P) ∧
+    GenA.get key P s x = some (findK key (key x) s.view) :=
+  ⟨GenA.insert_refines h x, GenA.take_refines h x, (GenA.get_refines h x).1⟩
 
 end Stevia.C03
